@@ -465,6 +465,8 @@ static CallConvId conv_named(const std::string& s) {
   if (s == "regparm2") return CallConvId::kRegParm2;
   if (s == "regparm3") return CallConvId::kRegParm3;
   if (s == "vectorcall") return CallConvId::kVectorCall;
+  if (s == "x64win") return CallConvId::kX64Windows;
+  if (s == "x64sysv") return CallConvId::kX64SystemV;
   fprintf(stderr, "conv %s?\n", s.c_str()); exit(3);
 }
 static const char* grp_name(RegGroup g) {
@@ -540,7 +542,8 @@ static void static_case(const vj::Value& in, FILE* out) {
   w.key("cargs").beginArr(); for (auto& a : in["cargs"].arr) w.val(a.s()); w.endArr();
   w.key("map").beginArr(); for (auto& a : in["map"].arr) w.val(a.i()); w.endArr();
   w.key("imms").beginArr(); for (auto& a : in["imms"].arr) w.val(a.i()); w.endArr();
-  w.kv("fp", in["fp"].i()).kv("bits", env.is_32bit() ? 32 : 64).kv("family", env.is_family_x86() ? "x86" : "a64");
+  long long live = in.has("live") ? in["live"].i() : 0;   // >0: f keeps a stack slot with known contents live across the call
+  w.kv("fp", in["fp"].i()).kv("live", live).kv("bits", env.is_32bit() ? 32 : 64).kv("family", env.is_family_x86() ? "x86" : "a64");
   const ArchTraits& at = ArchTraits::by_arch(env.arch());
   w.kv("sp", at.sp_reg_id());
 
@@ -571,8 +574,20 @@ static void static_case(const vj::Value& in, FILE* out) {
       }
       fregs.push_back(pack);
     }
+    Error e = Error::kOk;
+    if (live > 0 && env.is_family_x86() && env.is_64bit()) {
+      // a local of f with known contents (the immediates 9001 / 9002 in its first and last word), written before the call
+      x86::Compiler& xc = static_cast<x86::Compiler&>(static_cast<BaseCompiler&>(cc));
+      x86::Mem slot = xc.new_stack(uint32_t(live), 16);
+      x86::Mem lo = slot; lo.set_size(8);
+      x86::Mem hi = slot.clone_adjusted(int64_t(live) - 8); hi.set_size(8);
+      e = xc.mov(lo, imm(9001));
+      if (e != Error::kOk && e_api == Error::kOk) e_api = e;
+      e = xc.mov(hi, imm(9002));
+      if (e != Error::kOk && e_api == Error::kOk) e_api = e;
+    }
     Reg target;
-    Error e = cc._new_reg_with_name(Out<Reg>(target), TypeId::kUIntPtr, nullptr);
+    e = cc._new_reg_with_name(Out<Reg>(target), TypeId::kUIntPtr, nullptr);
     if (e != Error::kOk && e_api == Error::kOk) e_api = e;
     // the call target is loaded from the first word of f's red-zone-free scratch: an opaque register value is all that is needed
     if (env.is_family_x86()) e = static_cast<x86::Compiler&>(static_cast<BaseCompiler&>(cc)).xor_(target.as<x86::Gp>(), target.as<x86::Gp>());
@@ -607,6 +622,9 @@ static void static_case(const vj::Value& in, FILE* out) {
   if (inv) for (uint32_t i = 0; i < inv->arg_count(); i++) { w.beginArr(); const FuncValuePack& vp = inv->detail().arg_pack(i); for (uint32_t vi = 0; vi < Globals::kMaxValuePack && vp[vi]; vi++) put_fv(w, vp[vi]); w.endArr(); }
   w.endArr();
   w.kv("cstack", inv ? inv->detail().arg_stack_size() : 0u);
+  // what the finalized frame reserves for outgoing calls, and where f's own locals begin (offsets from SP after the prolog)
+  w.kv("call_area", f ? f->frame().call_stack_size() : 0u).kv("local_off", f ? f->frame().local_stack_offset() : 0u)
+   .kv("local_size", f ? f->frame().local_stack_size() : 0u);
   // every instruction from the entry of f to the call (the call itself is the last one)
   w.key("insts").beginArr();
   bool reached = false;
